@@ -15,7 +15,14 @@ EXPLANATION = (
     'emitting pass as normalised append sequences, non-zero placeholders '
     'before the dummy serialisation, exactly one constant-map entry per '
     'buffer on every path and a constant map that belongs to the current call, '
-    'threshold constant below 2^31.'
+    'threshold constant below 2^31. In addition a layout decision table (R6): '
+    'the constant map builder and the serialiser are enumerated by the path '
+    'interpreter over small buffer configurations (absent, zero-length, '
+    'sub-alignment, exactly aligned, byte-identical constants; three table '
+    'sizes) against a model of the flatbuffer writer that omits zero scalars; '
+    'every constant must sit at its recorded aligned offset in the emitted '
+    'stream. R6 does not depend on how offsets are computed, so a rewrite of '
+    'the two-pass idiom is still decided.'
 )
 LEVEL_TEXT = (
     'Decides, on every path of _serialize_large_model, that each recorded '
@@ -31,7 +38,7 @@ LEVEL_NOTE = (
     'convert_object_to_bytearray is deterministic for equal objects. Not '
     'decided: interpreter equality of both forms.'
 )
-TECHNIQUE = 'typestate dataflow on the CFG + sibling (two-pass) normal-form comparison (static)'
+TECHNIQUE = 'typestate dataflow on the CFG + sibling (two-pass) normal-form comparison + finite-domain path enumeration of the layout against a zero-omitting serialiser model (static)'
 
 MM = 'model_modifier:ModelModifier'
 
@@ -90,10 +97,17 @@ def _require_stream_idiom(f, g, pads):
              and common.call_name(st.value).endswith('convert_object_to_bytearray') and isinstance(st.targets[0], ast.Name)]
   offs = [n for n in g.nodes if n.kind == 'stmt' and isinstance(n.ast, ast.Assign) and isinstance(n.ast.targets[0], ast.Attribute) and n.ast.targets[0].attr == 'offset'
           and isinstance(n.ast.value, ast.Call) and common.call_name(n.ast.value) == 'len']
-  if len(streams) != 2 or not pads or not offs:
-    raise index.AnalysisError(
-        f'{f.fq}: offsets are no longer computed with the measured-stream idiom (two serialisations, `while len(stream) % 16` padding, '
-        '`buffer.offset = len(stream)`); alignment and pass agreement cannot be decided statically for this rewrite')
+  return len(streams) == 2 and bool(pads) and bool(offs)
+
+
+def _idiom_or_table(ctx, R, f, g, pads):
+  """The structural rules R1/R2 speak about the measured-stream idiom only. A
+  rewrite that computes offsets another way is decided by the layout table
+  (C16.R6), which does not depend on the shape of the code."""
+  if _require_stream_idiom(f, g, pads):
+    return True
+  ctx.check(R, True, f.node, f, 'measured-stream idiom absent: this structural rule does not apply, the layout table C16.R6 decides', '')
+  return False
 
 
 def r1_alignment(ctx):
@@ -103,7 +117,8 @@ def r1_alignment(ctx):
   ctx.instance(R)
   g = cfgmod.build(f.node)
   pads = _pad_loops(g)
-  _require_stream_idiom(f, g, pads)
+  if not _idiom_or_table(ctx, R, f, g, pads):
+    return
   ctx.check(R, len(pads) >= 4, f.node, f, f'{len(pads)} padding loops', 'expected padding loops after both serialisations and after each appended constant in both passes')
   for h, (x, m, _) in pads.items():
     try:
@@ -142,6 +157,32 @@ def r1_alignment(ctx):
         ctx.check(R, not inloop, n.ast, f, n.ast, 'bytes are appended between recording the offset and appending the constant')
 
 
+def _norm_skip(test: ast.AST) -> str:
+  """Skip condition modulo zero-length data: appending b'' to an aligned stream
+  and padding it changes nothing, so `X is None`, `not X`, `X is None or
+  len(X) == 0` describe the same emitted bytes."""
+  def absent(e):
+    if isinstance(e, ast.Compare) and len(e.ops) == 1 and isinstance(e.ops[0], ast.Is) and isinstance(e.comparators[0], ast.Constant) and e.comparators[0].value is None:
+      return defuse.norm(e.left)
+    if isinstance(e, ast.UnaryOp) and isinstance(e.op, ast.Not):
+      return defuse.norm(e.operand)
+    return None
+
+  def empty(e):
+    if isinstance(e, ast.Compare) and len(e.ops) == 1 and isinstance(e.ops[0], (ast.Eq, ast.LtE)) and isinstance(e.left, ast.Call) and common.call_name(e.left) == 'len' \
+        and isinstance(e.comparators[0], ast.Constant) and e.comparators[0].value == 0:
+      return defuse.norm(e.left.args[0])
+    if isinstance(e, ast.UnaryOp) and isinstance(e.op, ast.Not) and isinstance(e.operand, ast.Call) and common.call_name(e.operand) == 'len':
+      return defuse.norm(e.operand.args[0])
+    return None
+  parts = test.values if isinstance(test, ast.BoolOp) and isinstance(test.op, ast.Or) else [test]
+  xs = {absent(p) for p in parts} - {None}
+  rest = [p for p in parts if absent(p) is None and not (empty(p) in xs)]
+  if len(xs) == 1 and not rest:
+    return f'{xs.pop()} is absent/empty'
+  return defuse.norm(test)
+
+
 def _pass_summary(f, loop: ast.For, acc: str):
   """Normalised description of one pass over the buffers."""
   env = {}
@@ -150,7 +191,7 @@ def _pass_summary(f, loop: ast.For, acc: str):
     if isinstance(st, ast.Assign) and isinstance(st.targets[0], ast.Name):
       env[st.targets[0].id] = defuse.subst(st.value, env)
     elif isinstance(st, ast.If) and any(isinstance(x, ast.Continue) for x in st.body):
-      items.append(('skip-if', defuse.norm(defuse.subst(st.test, env))))
+      items.append(('skip-if', _norm_skip(defuse.subst(st.test, env))))
     elif isinstance(st, ast.AugAssign) and ast.unparse(st.target) == acc:
       items.append(('append', defuse.norm(defuse.subst(st.value, env))))
     elif isinstance(st, ast.While):
@@ -175,7 +216,8 @@ def r2_pass_agreement(ctx):
   ctx.rule(R, 'the emitting pass appends exactly the byte sequence the offset-computing pass measured', floor=1)
   f = ctx.repo.func(f'{MM}._serialize_large_model')
   ctx.instance(R)
-  _require_stream_idiom(f, cfgmod.build(f.node), _pad_loops(cfgmod.build(f.node)))
+  if not _idiom_or_table(ctx, R, f, cfgmod.build(f.node), _pad_loops(cfgmod.build(f.node))):
+    return
   loops = [n for n in f.node.body if isinstance(n, ast.For)]
   accs = {}
   for st in f.node.body:
@@ -241,8 +283,12 @@ def r3_placeholders(ctx):
   ctx.check(R, cond is not None and 'data is not None' in cond, l, f, f'condition {cond}', 'placeholders must be set exactly for the buffers that carry data')
   # skip condition of the passes is the same notion of "carries data" through the constant map
   pc = ctx.repo.func(f'{MM}._process_constant_map')
-  src = ast.unparse(pc.node)
-  ctx.check(R, 'if buffer.data is None' in src, pc.node, pc, 'None entries', 'buffers without data must be recorded as None in the constant map')
+  bv = common.loop_var(pc.node, '.buffers')
+  none_arms = [n for n in common.walk_no_nested(pc.node) if isinstance(n, ast.If) and defuse.norm(n.test) == f'{bv}.data is None']
+  ok = len(none_arms) == 1 and any(
+      isinstance(c.func, ast.Attribute) and c.func.attr == 'append' and c.args and defuse.norm(c.args[0]) in ('None', f'{bv}.data')
+      for st in none_arms[0].body for c in common.calls_in(st))
+  ctx.check(R, ok, pc.node, pc, 'None entries', 'buffers without data must be recorded as None in the constant map')
 
 
 def r4_constant_map(ctx):
@@ -319,8 +365,94 @@ def r5_threshold(ctx):
   ctx.check(R, tg and pm and pm[0].id in g.reachable([tg[0].id]) and tg[0].id not in g.reachable([pm[0].id]), f.node, f, 'order', 'constants must be collected after the graph was transformed')
 
 
+def r6_layout_table(ctx):
+  """Decision table of the large-model layout over small buffer configurations.
+
+  The flatbuffer serialiser is replaced by a model with the one property the
+  code relies on (and the one it must not rely on): the table it emits has a
+  size that depends on which scalar fields are non-zero, not on their values.
+  Everything else - constant map, placeholders, both passes, padding - is the
+  repository's own code, enumerated by the path interpreter. Independent of how
+  the offsets are computed (measured stream, arithmetic, helpers)."""
+  from sa import absint  # pylint: disable=g-import-not-at-top
+  from sa.consteval import Obj  # pylint: disable=g-import-not-at-top
+  R = 'C16.R6'
+  rs = ctx.rule(R, 'layout table: in the emitted stream every constant sits at its recorded, 16-aligned offset with its recorded size, for every small buffer configuration', floor=1)
+  pc = ctx.repo.func(f'{MM}._process_constant_map')
+  sl = ctx.repo.func(f'{MM}._serialize_large_model')
+  ctx.instance(R)
+  configs = [
+      [None, b'abc'],
+      [None, b'abc', b'0123456789abcdef', None, b'xy'],
+      [None, b'abc', b'abc', b'zz'],                       # byte-identical constants
+      [None, b'0123456789abcdef', b'0123456789abcdef0', b'q'],
+      [None, None],
+      [b'k' * 15, b'', b'l' * 17],                         # empty (zero-length) data
+  ]
+  rs.exhaustive = True
+  for header in (40, 48, 61):
+    for cfg in configs:
+      snaps = []
+
+      def serialise(args, kwargs, header=header, snaps=snaps):
+        model = args[0]
+        fields = []
+        n = header
+        for b in model.fields['buffers']:
+          off, size, data = b.fields['offset'], b.fields['size'], b.fields['data']
+          if isinstance(off, absint.Opaque) or isinstance(size, absint.Opaque):
+            raise index.AnalysisError('opaque offset/size reached the serialiser model')
+          n += (8 if off else 0) + (8 if size else 0) + (len(data) if data is not None else 0)
+          fields.append((off, size, data))
+        snaps.append(fields)
+        return bytes([0x48]) * n
+      it = absint.Interp(ctx.repo, ctx.ev, hooks={'flatbuffer_utils.convert_object_to_bytearray': serialise})
+      bufs = [Obj('x:BufferT', {'data': d, 'offset': 0, 'size': 0}) for d in cfg]
+      model = Obj('x:ModelT', {'buffers': bufs})
+      selfo = Obj(MM, {'_constant_map': []})
+      label = f'header {header}, buffers {[None if d is None else len(d) for d in cfg]}'
+      o1 = it.outcomes(pc, [selfo, model], copy_args=False)
+      if len(o1) != 1 or o1[0].kind != 'return':
+        ctx.check(R, False, pc.node, pc, label, f'constant map not decided: {[o.short() for o in o1]}')
+        continue
+      total = o1[0].value
+      ctx.check(R, total == sum(len(d) for d in cfg if d is not None), pc.node, pc, f'{label}: total {total}', 'the constant size that selects the large-model path must be the sum of all constant sizes')
+      o2 = it.outcomes(sl, [selfo, model], copy_args=False)
+      if len(o2) != 1 or o2[0].kind != 'return' or not isinstance(o2[0].value, (bytes, bytearray)) or not snaps:
+        ctx.check(R, False, sl.node, sl, label, f'layout not decided: {[o.short()[:80] for o in o2]}')
+        continue
+      stream = bytes(o2[0].value)
+      final = snaps[-1]
+      table_len = header + sum((8 if off else 0) + (8 if size else 0) + (len(d) if d is not None else 0) for off, size, d in final)
+      ctx.check(R, stream[:table_len] == bytes([0x48]) * table_len and all(d is None or len(d) == 0 for _, _, d in final), sl.node, sl, label,
+                'the stream must start with the table serialised LAST (with the final offsets) and constants must not also be stored inside the table')
+      for k, d in enumerate(cfg):
+        off, size, _ = final[k]
+        if d is None:
+          ctx.check(R, not off and not size, sl.node, sl, f'{label}: buffer {k} (no data) offset={off} size={size}', 'a buffer without data must not point into the stream')
+          continue
+        if len(d) == 0:
+          # a zero-length constant selects no bytes: either it stays in the table (offset = size = 0) or it points at an aligned, in-bounds position
+          ok = not size and (not off or (isinstance(off, int) and off % 16 == 0 and table_len <= off <= len(stream)))
+          ctx.check(R, ok, sl.node, sl, f'{label}: buffer {k} (zero-length) offset={off} size={size}', 'a zero-length constant must select zero bytes at a valid position')
+          continue
+        ok = isinstance(off, int) and isinstance(size, int) and off % 16 == 0 and off >= table_len and size == len(d) and stream[off:off + size] == d
+        ctx.check(R, ok, sl.node, sl, f'{label}: buffer {k} offset={off} size={size} stream length {len(stream)}',
+                  f'buffer {k}: the bytes at its recorded offset/size are not its constant (or the offset is not 16-aligned / inside the table): '
+                  'the runtime would read another constant\'s bytes')
+      spans = sorted((final[k][0], final[k][0] + final[k][1], k) for k, d in enumerate(cfg) if d and isinstance(final[k][0], int) and isinstance(final[k][1], int))
+      for (a0, a1, ka), (b0, b1, kb) in zip(spans, spans[1:]):
+        ctx.check(R, a1 <= b0, sl.node, sl, f'{label}: buffers {ka} [{a0},{a1}) and {kb} [{b0},{b1})', f'the byte ranges of buffers {ka} and {kb} overlap')
+      # no table growth between the measuring and the final serialisation
+      if len(snaps) >= 2:
+        shape = lambda s: [(bool(o), bool(z), d is None) for o, z, d in s]
+        ctx.check(R, shape(snaps[0]) == shape(snaps[-1]), sl.node, sl, f'{label}: field presence {shape(snaps[0])} vs {shape(snaps[-1])}',
+                  'a scalar field is zero in one serialisation and non-zero in the other: flatbuffers omits zero scalars, the table size changes and every offset is off')
+
+
 def run(ctx):
   ctx.assume('flatbuffers omits scalar fields whose value is the default (0)')
+  r6_layout_table(ctx)
   r1_alignment(ctx)
   r2_pass_agreement(ctx)
   r3_placeholders(ctx)
